@@ -1,7 +1,7 @@
 """C04 - constraints hold and output is finite at every stopping point."""
 from .solver_common import run_parallel, run_bbox
 
-LEAN_MODULES = ["Skglm.Properties.C04", "Skglm.Properties.C04Run", "Skglm.Properties.BCD", "Skglm.Properties.GramCD", "Skglm.Properties.FISTA"]
+LEAN_MODULES = ["Skglm.Properties.C04", "Skglm.Properties.C04Run", "Skglm.Properties.BCD", "Skglm.Properties.GramCD", "Skglm.Properties.FISTA", "Skglm.Properties.PDCD"]
 COMBOS = [("quadratic", "l1"), ("quadratic", "l1l2"), ("quadratic", "wl1"), ("quadratic", "mcp"),
           ("quadratic", "wmcp"), ("quadratic", "pos"), ("quadratic", "box"), ("svc", "box"),
           ("logistic", "l1"), ("huber", "l1"), ("wquadratic", "wl1"), ("logistic", "pos")]
@@ -18,6 +18,7 @@ def run(ctx, rep):
     moves_common.run_bcd_moves(ctx, rep)
     moves_common.run_gram_moves(ctx, rep)
     moves_common.run_fista(ctx, rep)
+    moves_common.run_pdcd(ctx, rep)
 
 
 def replay(ctx, payload):
